@@ -170,7 +170,7 @@ C_SOURCES = [
     ("strings", "int h(int); const char *m = \"xyz\"; int f(int a) { return m[a % 3] + h(a); }"),
 ]
 ASM_SOURCES = {
-    "x86_64": "section code\nglobal start\nstart:\nmov rax, 60\nlocal_lab:\njmp start\ncall other\nsection data\nother:\ndq 0x1122334455667788\ndq =start\n",
+    "x86_64": "section code\nglobal start\nstart:\nmov rax, 60\nlocal_lab:\njmp start\ncall other\nsection data\nother:\ndd 0x11223344\ndd 0x55667788\ndq =start\n",
     "arm": "section code\nglobal start\nstart:\nmov r0, 1\nmov r1, r0\nsection data\ndd 0x11223344\ndb 7\n",
     "riscv": "section code\nglobal start\nstart:\nadd x1, x2, x3\nsection data\ndd 0x11223344\n",
     "xtensa": "section code\nglobal start\nstart:\nnop\nsection data\ndd 0x11223344\n",
@@ -474,8 +474,8 @@ def judge_batch(p, cases, d, only_key=None):
             if not v["ok"]:
                 rejected = True
                 key = diag_class(tool, v["diag"])
-                if case["arch"] == "microblaze":
-                    key = "reader-rejects/big-endian-header-fields"
+                if MACHINES[case["arch"]][1] == "BE" and "e_shentsize" in v["diag"]:
+                    key = "reader-rejects/big-endian-header-fields"      # defect 36: one mechanism whatever field the reader trips over first
                 if only_key in (None, key):
                     p.violation(key, "%s %s file (%s) is not accepted by %s: %s" % (case["arch"], ftype, case["label"], tool, v["diag"].splitlines()[0][:200] if v["diag"] else "?"), case)
         if rejected:
